@@ -137,8 +137,13 @@ def sum_axes_in(t):
                 kinds.add('other')
                 continue
             a0 = strip_views(ax)
+            opnd_ = pos[0] if pos else None
+            moved = opnd_ is not None and any(is_call_to(z, 'numpy.moveaxis', 'numpy.swapaxes', 'numpy.rollaxis', 'numpy.transpose', 'method:swapaxes', 'method:transpose')
+                                              for z in walk_terms(opnd_, into_mu=True))
             if a0.op == 'param' and a0.args[0] == 'source_axis':
                 kinds.add('source')
+            elif a0.op == 'const' and moved:
+                kinds.add('computed')          # a literal axis of an array whose axes were moved first (np.moveaxis(mask, source_axis, 0)): which axis of the input it is is not read here
             elif a0.op in ('const', 'param'):
                 kinds.add('other')
             else:
@@ -152,6 +157,20 @@ def form_verdict(run, ok, rule, title, where, expected, detail, construct, terms
     if ok:
         run.check(True, rule, title, where, expected, detail, construct=construct)
         return
+    # a sum over the literal axis k of np.swapaxes / np.moveaxis(x, source_axis, k) that survived the builder (swap - reduce - swap back is np.sum(x, axis=source_axis)): the
+    # reduced axis stays at position k and broadcasts against the wrong axis of the numerator
+    for t in terms:
+        for x in walk_terms(t, into_mu=False) if isinstance(t, T) else ():
+            n_, pos_, kw_ = call_parts(x) if x.op == 'call' else (None, (), {})
+            if n_ in ('numpy.sum', 'method:sum') and pos_:
+                ax_ = kw_.get('axis', pos_[1] if len(pos_) > 1 else None)
+                kd_ = kw_.get('keepdims')
+                o_ = strip_views(pos_[0])
+                if ax_ is not None and isinstance(const_val(ax_), int) and kd_ is not None and const_val(kd_) is True and is_call_to(o_, 'numpy.swapaxes', 'numpy.moveaxis') \
+                        and len(call_parts(o_)[1]) == 3 and any(strip_views(z).op == 'param' and strip_views(z).args[0] == 'source_axis' for z in call_parts(o_)[1][1:]) \
+                        and any(const_val(z) == const_val(ax_) for z in call_parts(o_)[1][1:]):
+                    run.check(False, rule, title, where, expected, detail + f'; `{norm_stmt(x.node)[:90]}` sums the source axis at position {const_val(ax_)} and leaves the kept axis there', construct=construct)
+                    return
     nf = next((not_followed_in(t) for t in terms if not_followed_in(t) is not None), None)
     kinds = set()
     for t in terms:
@@ -175,11 +194,56 @@ def check_forms(run, A):
     # (np.expand_dims(np.argmax(x, axis=a), a) is built as np.argmax(x, axis=a, keepdims=True))
     kept = bool(am) and call_arg(am[0], None, 'keepdims') is not None and const_val(call_arg(am[0], None, 'keepdims')) is True
     ok = ok and (kept or (bool(ed) and strip_views(call_arg(ed[0], 1, 'axis')).op == 'param' and strip_views(call_arg(ed[0], 1, 'axis')).args[0] == 'source_axis'))
-    run.check(ok, 'FORM', 'ideal_binary_mask: arg-max over source_axis, re-expanded on source_axis', fn.loc(), '', 'arg-max / expand_dims do not both use source_axis', construct=f'FORM::{q}::argmax-axis')
+    am_ok = bool(am) and strip_views(call_arg(am[0], 1, 'axis')).op == 'param' and strip_views(call_arg(am[0], 1, 'axis')).args[0] == 'source_axis'
+    if not ok and am_ok and not kept and not ed:
+        # the arg-max runs over source_axis, but the winner is not re-expanded with expand_dims / keepdims: the one-hot mask is built in another way.  One such way is decided:
+        # one-hot on a new LAST axis, then np.transpose with a computed axis order - folded for every rank and every admissible source_axis (pbv/inteval.py): the new axis must
+        # land at position source_axis of the result and the other axes keep their order
+        from ..inteval import int_eval, UNKNOWN
+        from ..walk import rank_sources_in
+        verdict = None
+        for r_ in ret_alts(g):
+            for x in walk_terms(r_, into_mu=False):
+                if not is_call_to(x, 'numpy.transpose', 'method:transpose'):
+                    continue
+                axes_t = call_arg(x, 1, 'axes')
+                if axes_t is None or const_val(axes_t) is not NOVAL:
+                    continue
+                rank_terms = [y for y in walk_terms(axes_t, into_mu=False) if (y.op == 'attr' and y.args[1] == 'ndim') or is_call_to(y, 'numpy.ndim')]
+                verdict = True
+                for n_ in (1, 2, 3):
+                    for a_ in range(-(n_ + 1), n_ + 1):
+                        env_ = {('term', y.id): n_ for y in rank_terms}
+                        env_['source_axis'] = a_
+                        perm = int_eval(axes_t, env_)
+                        if perm is UNKNOWN or not isinstance(perm, tuple):
+                            verdict = None
+                            break
+                        want = list(range(n_))
+                        want.insert(a_ % (n_ + 1), n_)
+                        if list(perm) != want:
+                            verdict = (n_, a_, perm, tuple(want))
+                            break
+                    if verdict is not True:
+                        break
+                break
+            if verdict is not None:
+                break
+        if isinstance(verdict, tuple):
+            n_, a_, perm, want = verdict
+            run.violation('FORM', 'ideal_binary_mask: arg-max over source_axis, re-expanded on source_axis', fn.loc(),
+                          f'the one-hot axis is put back with a computed axis order: for a signal of rank {n_ + 1} and source_axis={a_} the order is {perm}, the source axis of the result '
+                          f'must be at position {a_ % (n_ + 1)} ({want})', construct=f'FORM::{q}::argmax-axis')
+        elif verdict is True:
+            run.ok('FORM', 'ideal_binary_mask: arg-max over source_axis, re-expanded on source_axis', fn.loc(), 'computed axis order folded for ranks 2..4 and every source_axis')
+        else:
+            run.unresolved('FORM', 'ideal_binary_mask: arg-max over source_axis, re-expanded on source_axis', fn.loc(), 'the winner index is turned into the mask in a form this rule does not read')
+    else:
+        run.check(ok, 'FORM', 'ideal_binary_mask: arg-max over source_axis, re-expanded on source_axis', fn.loc(), '', 'arg-max / expand_dims do not both use source_axis', construct=f'FORM::{q}::argmax-axis')
     st = [e for e in g.events if e.kind == 'store']
     oks = any(strip_views(e.term.args[1]).op == 'param' and strip_views(e.term.args[1]).args[0] == 'source_axis' for e in st)
     eqs = [t for e in g.events if e.term is not None for t in walk_terms(e.term) if t.op == 'cmp' and t.args[0] == 'Eq' and any(is_call_to(x, 'numpy.arange') for x in walk_terms(t.args[2]))]
-    if not st and eqs:
+    if (not st and eqs) or not eqs:
         # no shape list is filled in at all: the grid of class indices is laid out in another way (expand_dims over the other axes, ...) - not read here
         run.unresolved('FORM', 'ideal_binary_mask: compared with arange laid out along source_axis', fn.loc(), 'the class index grid is not built by filling a shape list at [source_axis]')
     else:
@@ -234,7 +298,7 @@ def check_forms(run, A):
                     and data_derives(call_arg(strip_views(f.args[1]), 0), 'signal')
             elif is_call_to(f, 'numpy.cos'):
                 th = strip_views(call_arg(f, 0))
-                if th.op == 'binop' and th.args[0] == 'Sub':
+                if th.op in ('binop', 'iop') and th.args[0] == 'Sub':
                     a, b = strip_views(th.args[1]), strip_views(th.args[2])
                     ok_cos = is_call_to(a, 'numpy.angle') and is_call_to(b, 'numpy.angle') and data_derives(call_arg(a, 0), 'signal') and bool(obs) and call_arg(b, 0) is obs[0]
     form_verdict(run, ok_obs and ok_div and ok_cos, 'FORM', 'phase_sensitive_mask: |s| / (|y| + eps) * cos(angle s - angle y), y = sum over source_axis', fn.loc(), '',
